@@ -247,10 +247,20 @@ def run_case(case, rng):
     # ---- foreign keys ---------------------------------------------------------------------------------------------------
     foreign = [k for k in POOL if not _in(k, d0)] + ["zz", 99, -7, (9, 9), ("zz",), [99], ["zz", "a"], {"a": 1},
                                                     {1, 2}, 1.5, slice(0, 1), slice(1, None), (slice(0, 1),)]
+    hashable0 = [k for k in d0 if not isinstance(k, (set, frozenset))]
+    if hashable0:
+        fs = frozenset(rng.sample(hashable0, rng.randint(1, len(hashable0))))
+        foreign += [fs, (fs,), (fs, Ellipsis), frozenset(), (frozenset(),)]
     if nf >= 2:
         foreign += [(rng.choice(d0), "zz"), (rng.choice(d0), 99), ("zz", rng.choice(domains[1])),
                     tuple(rng.choice(d) for d in domains) + ("extra",)]
-    for sel in rng.sample(foreign, min(len(foreign), 10)):
+        h1 = [k for k in domains[1] if not isinstance(k, (set, frozenset))]
+        if h1:
+            fs1 = frozenset(rng.sample(h1, rng.randint(1, len(h1))))
+            foreign += [(rng.choice(d0), fs1), (rng.choice(d0), frozenset())]
+            if hashable0:
+                foreign += [(frozenset([hashable0[0]]), rng.choice(domains[1]))]
+    for sel in rng.sample(foreign, min(len(foreign), 14)):
         try:
             table_resolve(domains, data, sel)
             continue            # happens to resolve (collision): not foreign
